@@ -28,6 +28,28 @@ impl Ref {
     }
 }
 
+/// every rule name `reference` can report
+pub const ALL_RULES: [&str; 59] = [
+    "size", "policies", "witness_limit", "max_gas", "max_fee_unset", "maturity", "expiration",
+    "inputs_count", "outputs_count", "witnesses_count", "owner_index", "owner_ownerless",
+    "no_spendable", "dup_change", "dup_utxo", "dup_contract", "dup_nonce", "predicate_empty",
+    "predicate_len", "predicate_data_len", "witness_index", "contract_in_out", "msg_data_len",
+    "contract_out_index", "change_asset_absent", "coin_asset_absent", "balance_overflow",
+    "coin_out_exceeds", "fee_exceeds", "script_len", "script_data_len", "script_created_output",
+    "create_bytecode_witness", "create_bytecode_len", "create_slots_count", "create_slots_order",
+    "restricted_nonbase_input", "restricted_contract_input", "restricted_msgdata_input",
+    "restricted_contract_output", "restricted_variable_output", "restricted_change_nonbase",
+    "restricted_created_output", "create_created_mismatch", "create_created_multiple",
+    "create_created_missing", "upgrade_no_privileged", "upgrade_witness_index", "upgrade_checksum",
+    "upgrade_payload", "upload_subsections", "upload_witness_index", "upload_proof",
+    "blob_witness_index", "blob_id", "mint_size", "mint_height", "mint_output_index", "mint_asset",
+];
+
+/// rules that cannot be the only broken rule of any transaction: a contract input
+/// (output) in a restricted kind needs its output (input), which is restricted too; a
+/// non-base change output needs a non-base input, which is restricted too
+pub const NEVER_ALONE: [&str; 3] = ["restricted_contract_input", "restricted_contract_output", "restricted_change_nonbase"];
+
 // ------------------------------------------------------------------ canonical size
 
 fn pad8(n: u64) -> u64 {
